@@ -362,7 +362,7 @@ static void mode_cold(void)
 		fflush(stdout); pid_t pid = fork();
 		if (pid == 0) {
 			/* child: nothing has been resolved yet in this process image? (the parent made no library call except input preparation, which used deflate level 0..3 only) */
-			alarm(120); cold_sc = sc; cold_var = var; pthread_barrier_init(&bar, 0, nt); pthread_t th[16]; static arena_t ar[16]; for (int i = 0; i < nt; i++) { ar[i] = new_arena(); prefill(&ar[i], i % 4, i); ar[i].shift = 0; pthread_create(&th[i], 0, cold_thr, &ar[i]); }
+			alarm(900); cold_sc = sc; cold_var = var; pthread_barrier_init(&bar, 0, nt); pthread_t th[16]; static arena_t ar[16]; for (int i = 0; i < nt; i++) { ar[i] = new_arena(); prefill(&ar[i], i % 4, i); ar[i].shift = 0; pthread_create(&th[i], 0, cold_thr, &ar[i]); }
 			for (int i = 0; i < nt; i++) pthread_join(th[i], 0);
 			int diff = 0; for (int i = 1; i < nt; i++) if (*(uint64_t *) ar[i].aux2 != *(uint64_t *) ar[0].aux2) diff = 1;
 			_exit(cold_bad ? 11 : diff ? 12 : 0);
